@@ -93,6 +93,7 @@ func (f *FileOutputHandler) Write(
 					Hash:      fileHash,
 					SizeBytes: fileInfo.Size(),
 				},
+				IsExecutable: fileInfo.Mode()&0111 != 0,
 			},
 		},
 	}, nil
@@ -107,9 +108,19 @@ func (f *FileOutputHandler) Load(
 	absOutputPath := config.GetPathAbsoluteToWorkspaceRoot(filepath.Join(target.Label.Package, output.GetFile().GetPath()))
 	existingHash, err := hashing.HashFile(absOutputPath)
 
+	// Restore the executable permission along with the content (a bin output must always be runnable)
+	fileMode := os.FileMode(0644)
+	isBinOutput := target.HasBinOutput() && target.BinOutput.Identifier == output.GetFile().GetPath()
+	if output.GetFile().GetIsExecutable() || isBinOutput {
+		fileMode = 0755
+	}
+
 	// If the local hash is the same as the cached one we don't need to
 	// load the file from the CAS
 	if err == nil && existingHash == output.GetFile().GetDigest().GetHash() {
+		if info, statErr := os.Stat(absOutputPath); statErr == nil && (info.Mode()&0111 != 0) != (fileMode&0111 != 0) {
+			return os.Chmod(absOutputPath, fileMode)
+		}
 		return nil
 	}
 
@@ -148,6 +159,10 @@ func (f *FileOutputHandler) Load(
 
 	if progress != nil {
 		progress.Complete()
+	}
+
+	if err := outputFile.Chmod(fileMode); err != nil {
+		return err
 	}
 
 	if err := outputFile.Close(); err != nil {
